@@ -153,7 +153,7 @@ def run(prog, ctx):
     for k, (a, b) in enumerate(pairs):
         an = c.node_of(a)
         # all definitions of w2 reach through one join; w1 is defined from w2 after the join
-        t1 = R.resolve_locals(cw, tm.term(a.value), an, tm, depth=1)
+        t1 = R.resolve_locals(cw, tm.term(a.value), an, tm, depth=1) if isinstance(a.value, ast.Name) else tm.term(a.value)
         t2 = tm.term(b.value)
         total = poly_of_term(t1) + poly_of_term(t2)
         loops = [l for l in R.enclosing_loops(a) if isinstance(l, ast.For)]
@@ -325,6 +325,8 @@ def run(prog, ctx):
                     for b in tmf.env.bindings.get(name_node.id, []):
                         if b.kind == "assign":
                             out.append(tmf.term(b.value))
+                else:
+                    out.append(tmf.term(name_node))
                 return out
             f0, f1 = forms(call.args[0]), forms(call.args[1])
             first = [t for t in f0 if t[0] == "s" and t[2][0] == "slice"]
